@@ -403,6 +403,8 @@ class Interp:
     def _call_subst(self, sub, args, kwargs):
         """A callee replaced by its contract: either an engine-level callable
         (it, args, kwargs) or a spec function from contracts/ (interpreted)."""
+        if isinstance(sub, type) and (sub.__module__ or "").startswith("contracts"):
+            return self.construct(sub, list(args), kwargs)
         if isinstance(sub, types.FunctionType) and (sub.__module__ or "").startswith("contracts"):
             self.call_log.append(sub.__qualname__)
             return self.call_function(sub, list(args), kwargs)
@@ -472,6 +474,12 @@ class Interp:
 
     # ---------------------------------------------------------------- functions
     def call_function(self, f, args, kwargs, defcls=None):
+        try:
+            sub = self.subst.get(f)
+        except TypeError:
+            sub = None
+        if sub is not None and sub is not f:
+            return self._call_subst(sub, args, kwargs)
         node, _path = front.func_ast(f)
         if isinstance(node, ast.AsyncFunctionDef):
             return SCoroutine(self, f, args, kwargs, defcls)
